@@ -202,3 +202,104 @@ func quoteArgsRule(c *Ctx, rule string) {
 	}
 	c.Floor(rule, n, 40)
 }
+
+// sourceMemoRule: no source is skipped because "it was seen before" on the
+// strength of part of its identity.
+func sourceMemoRule(c *Ctx, rule string) {
+	p := c.P
+	c.Rule(rule, "in every loop over a Sources value outside the parser, no source is skipped (continue/break) because a local map already holds a key that is a single field of the source: a measurement is identified by database, retention policy, name and regex together, so a memo keyed by Name treats db1..cpu and db2..cpu as one and the second one's fields never reach the result")
+	n := 0
+	for _, fb := range p.funcBodies() {
+		if parserTypes[recvTypeName(fb.Decl)] {
+			continue
+		}
+		ord := 0
+		ast.Inspect(fb.Body, func(nd ast.Node) bool {
+			rs, ok := nd.(*ast.RangeStmt)
+			if !ok {
+				return true
+			}
+			t := p.Info.TypeOf(rs.X)
+			if t == nil || p.TypeStr(t) != "Sources" {
+				return true
+			}
+			ord++
+			n++
+			key := fmt.Sprintf("%s: loop #%d over %s", fb.Name, ord, types.ExprString(rs.X))
+			bad := token.NoPos
+			ast.Inspect(rs.Body, func(m ast.Node) bool {
+				is, ok := m.(*ast.IfStmt)
+				if !ok {
+					return true
+				}
+				// `_, ok := memo[k]; ok` or `memo[k]` as the condition
+				var lookups []*ast.IndexExpr
+				collect := func(e ast.Node) {
+					if e == nil {
+						return
+					}
+					ast.Inspect(e, func(q ast.Node) bool {
+						if ix, ok := q.(*ast.IndexExpr); ok {
+							if _, isMap := p.Info.TypeOf(ix.X).Underlying().(*types.Map); isMap {
+								if id := identOf(ix.X); id != nil {
+									if o := p.Info.ObjectOf(id); o != nil && o.Parent() != p.Types.Scope() {
+										if _, isParam := fieldOrParam(p, fb, o); !isParam {
+											lookups = append(lookups, ix)
+										}
+									}
+								}
+							}
+						}
+						return true
+					})
+				}
+				collect(is.Init)
+				collect(is.Cond)
+				if len(lookups) == 0 {
+					return true
+				}
+				skips := false
+				for _, st := range is.Body.List {
+					if br, ok := st.(*ast.BranchStmt); ok && (br.Tok == token.CONTINUE || br.Tok == token.BREAK) {
+						skips = true
+					}
+				}
+				partial := false
+				for _, ix := range lookups {
+					if sel, ok := ast.Unparen(ix.Index).(*ast.SelectorExpr); ok {
+						if sl := p.Info.Selections[sel]; sl != nil && sl.Kind() == types.FieldVal {
+							partial = true // one field of the source, not its whole identity
+						}
+					}
+				}
+				if skips && partial && bad == token.NoPos {
+					bad = is.Pos()
+				}
+				return true
+			})
+			if bad != token.NoPos {
+				c.Bad(rule, key, bad, "a source is skipped when a local map already holds one of its fields as a key: sources that share that field but differ elsewhere are dropped")
+			} else {
+				c.OK(rule, key, rs.Pos(), "no source is skipped on a memo")
+			}
+			return true
+		})
+	}
+	c.Floor(rule, n, 5)
+}
+
+// fieldOrParam: o is a parameter of the function (a caller's map, not a memo).
+func fieldOrParam(p *Program, fb funcBody, o types.Object) (string, bool) {
+	fd := p.FuncDecls[fb.Decl]
+	if fd == nil || fd.Type.Params == nil {
+		return "", false
+	}
+	for _, f := range fd.Type.Params.List {
+		for _, nm := range f.Names {
+			if p.Info.Defs[nm] == o {
+				return nm.Name, true
+			}
+		}
+	}
+	return "", false
+}
